@@ -27,7 +27,7 @@ type verifAPre struct {
 	trend   int
 }
 
-func verifAInductiveStep(allowLeave bool) {
+func verifAInductiveStep(free int) {
 	verifASched()
 	fails := verif.IntRange("fails", 1, 3)
 	passes := verif.IntRange("passes", 1, 3)
@@ -37,9 +37,10 @@ func verifAInductiveStep(allowLeave bool) {
 
 	pre := make([]verifAPre, 3)
 	for h := range verifAHosts {
-		// host a: any past; host b: was listed, any state; host c: was listed,
-		// healthy, passing (keeps the list at >= 2 hosts)
-		pre[h].present = h != 0 || verif.Choice("was_listed", 2) == 1
+		// hosts below `free`: any past (new or known) and may leave; the others
+		// were listed and stay; host c is healthy and passing (keeps the list
+		// at >= 2 hosts together with one more)
+		pre[h].present = h >= free || verif.Choice("was_listed", 2) == 1
 		pre[h].healthy = true
 		if !pre[h].present {
 			continue
@@ -68,11 +69,8 @@ func verifAInductiveStep(allowLeave bool) {
 
 	addrs := stringset.New()
 	for h := range verifAHosts {
-		listed := h != 0 || verif.Choice("listed", 2) == 1
+		listed := h >= free || verif.Choice("listed", 2) == 1
 		if pre[h].present && !listed {
-			if !allowLeave {
-				verif.Assume(false)
-			}
 			verif.Reach("host-left")
 		}
 		if listed {
@@ -121,9 +119,10 @@ func verifAInductiveStep(allowLeave bool) {
 }
 
 // VerifActiveInductiveStep: one round from any invariant-satisfying state; hosts
-// stay or join (nobody leaves).
-func VerifActiveInductiveStep() { verifAInductiveStep(false) }
+// a and b may be new or known and may stay, join or leave.
+func VerifActiveInductiveStep() { verifAInductiveStep(2) }
 
-// VerifActiveFindingInductiveLeave: the same with hosts leaving: the state must
-// forget them completely (otherwise a later rejoin does not start healthy).
-func VerifActiveFindingInductiveLeave() { verifAInductiveStep(true) }
+// VerifActiveFindingInductiveLeave: only host a joins or leaves: the state must
+// forget a host that left completely, otherwise a later rejoin does not start
+// healthy (regression check for the fixed finding).
+func VerifActiveFindingInductiveLeave() { verifAInductiveStep(1) }
